@@ -35,18 +35,27 @@ pub fn read_behaviours(path: &str) -> Vec<Value> {
     out
 }
 
+pub static LAST_PANIC_AT: std::sync::Mutex<String> = std::sync::Mutex::new(String::new());
+
+/// no panic noise on stderr; the location of the last panic is kept for the record
 pub fn silence_panics() {
-    std::panic::set_hook(Box::new(|_| {}));
+    std::panic::set_hook(Box::new(|info| {
+        if let (Some(l), Ok(mut g)) = (info.location(), LAST_PANIC_AT.lock()) {
+            *g = format!("{}:{}", l.file(), l.line());
+        }
+    }));
 }
 
 pub fn panic_msg(e: Box<dyn std::any::Any + Send>) -> String {
-    if let Some(s) = e.downcast_ref::<&str>() {
+    let at = LAST_PANIC_AT.lock().map(|g| g.clone()).unwrap_or_default();
+    let m = if let Some(s) = e.downcast_ref::<&str>() {
         s.to_string()
     } else if let Some(s) = e.downcast_ref::<String>() {
         s.clone()
     } else {
         "panic".into()
-    }
+    };
+    if at.is_empty() { m } else { format!("{m} at {at}") }
 }
 
 pub struct TraceOut {
